@@ -1048,7 +1048,44 @@ def shape_checks(ld, r, tier):
                     again = f'raised {type(e).__name__}: {e}'
                 if again != [seq, seq]:
                     fails.append(f'backend {be}: after an iteration was stopped early ({how}) the next iterations over the same backend give {again} instead of twice {seq}')
+    # a map function whose state changes between two iterations of the SAME dataset object (a per-epoch schedule, a bound method of
+    # a mutable object): every epoch computes with the current state, as the sequential map does - on every backend
+    with warnings.catch_warnings():
+        warnings.simplefilter('ignore')
+        for be in ['t', 'dill_mp', 'mp', 'concurrent_mp', 'multiprocessing']:
+            n = 5
+            src = ld.new(list(range(1, n + 1)))
+            for how in ('parmap', 'batch_map', 'bound_method'):
+                runs += 1
+                sc = BScale()
+                try:
+                    if how == 'parmap': d = src.map(sc, num_workers=2, buffer_size=3, backend=be)
+                    elif how == 'bound_method': d = src.map(sc.apply, num_workers=2, buffer_size=2, backend=be)
+                    else: d = src.batch(2).batch_map(sc, num_workers=1, buffer_size=2, backend=be)
+                    got, want = [], []
+                    for f in (2, 3, 5):
+                        sc.factor = f
+                        got.append(list(d))
+                        want.append([x * f for x in range(1, n + 1)] if how != 'batch_map' else [[x * f for x in b] for b in ([1, 2], [3, 4], [5])])
+                except BaseException as e:  # noqa
+                    if isinstance(e, (KeyboardInterrupt, SystemExit)):
+                        raise
+                    got = f'raised {type(e).__name__}: {e}'[:200]
+                if got != want:
+                    fails.append(f'backend {be} {how}: the state of the map function changes between the epochs of one dataset object (factor 2, 3, 5): parallel {got} vs sequential {want}')
     return fails, runs
+
+
+class BScale:
+    """picklable callable with state"""
+    def __init__(self):
+        self.factor = 1
+
+    def __call__(self, x):
+        return x * self.factor
+
+    def apply(self, x):
+        return x * self.factor
 
 
 class BTupFn:
@@ -1187,6 +1224,7 @@ def dataset_level_readahead(ld, r, tier):
     import time, warnings
     fails, runs = [], 0
     n = 60
+    nvia = 0
     cfgs = [(2, 2), (1, 1), (3, 4), (2, 3)] if tier == 'quick' else [(1, 1), (1, 2), (2, 2), (2, 3), (3, 3), (3, 4), (2, 4)]
     with warnings.catch_warnings():
         warnings.simplefilter('ignore')
@@ -1199,21 +1237,29 @@ def dataset_level_readahead(ld, r, tier):
                     return x
                 src = ld.new({f'k{i:02d}': i for i in range(n)})
                 per = 1
-                if kind == 'parmap': it = iter(src.map(fn, num_workers=w, buffer_size=b))
-                elif kind == 'parmap_items': it = iter(src.map(fn, num_workers=w, buffer_size=b).items())
+                if kind == 'parmap': dsx = (src.map(fn, num_workers=w, buffer_size=b))
+                elif kind == 'parmap_items': dsx = (src.map(fn, num_workers=w, buffer_size=b).items())
                 elif kind == 'batch_map':
                     per = 2
-                    it = iter(src.batch(2).batch_map(fn, num_workers=w, buffer_size=b))
-                elif kind == 'prefetch': it = iter(src.map(fn).prefetch(w, b))
+                    dsx = (src.batch(2).batch_map(fn, num_workers=w, buffer_size=b))
+                elif kind == 'prefetch': dsx = (src.map(fn).prefetch(w, b))
                 elif kind == 'prefetch_items':
                     if w > 1:
                         continue            # multi-worker prefetch refuses items() loudly
-                    it = iter(src.map(fn).prefetch(w, b).items())
-                elif kind == 'prefetch_catch': it = iter(src.map(fn).prefetch(w, b, catch_filter_exception=True))
-                elif kind == 'prefetch_catch_cls': it = iter(src.map(fn).prefetch(w, b, backend='thread', catch_filter_exception=(KeyError, ld.FilterException)))
-                elif kind == 'prefetch1_catch': it = iter(src.map(fn).prefetch(1, b, catch_filter_exception=True))
-                elif kind == 'prefetch1': it = iter(src.map(fn).prefetch(1, b))
-                else: it = iter(src.map(fn).prefetch(1, b).items())
+                    dsx = (src.map(fn).prefetch(w, b).items())
+                elif kind == 'prefetch_catch': dsx = (src.map(fn).prefetch(w, b, catch_filter_exception=True))
+                elif kind == 'prefetch_catch_cls': dsx = (src.map(fn).prefetch(w, b, backend='thread', catch_filter_exception=(KeyError, ld.FilterException)))
+                elif kind == 'prefetch1_catch': dsx = (src.map(fn).prefetch(1, b, catch_filter_exception=True))
+                elif kind == 'prefetch1': dsx = (src.map(fn).prefetch(1, b))
+                else: dsx = (src.map(fn).prefetch(1, b).items())
+                # the stage is iterated directly, through a copy, through a frozen copy or under the profiling wrapper (which copies the
+                # pipeline): copies keep the configured buffer size
+                via = ('direct', 'copy', 'freeze', 'profile')[nvia % 4]
+                nvia += 1
+                if via == 'copy': dsx = dsx.copy()
+                elif via == 'freeze': dsx = dsx.copy(freeze=True)
+                elif via == 'profile': dsx = ld.core.ProfilingDataset(dsx)
+                it = iter(dsx)
                 runs += 1
                 worst = 0
                 try:
@@ -1225,7 +1271,7 @@ def dataset_level_readahead(ld, r, tier):
                     it.close()
                 bound = (b + 2) if kind.startswith('prefetch1') or (kind.startswith('prefetch') and w == 1 and kind != 'prefetch_catch_cls') else b * per
                 if worst > bound:
-                    fails.append(f'{kind} num_workers={w} buffer_size={b}: {worst} function applications ahead of the consumer (bound {bound})')
+                    fails.append(f'{kind} num_workers={w} buffer_size={b} (iterated via {via}): {worst} function applications ahead of the consumer (bound {bound})')
         # the documented defaults of a direct call (buffer_size=5, max_workers=2)
         import lazy_dataset.parallel_utils as _pu
         started = []
